@@ -136,7 +136,13 @@ def gen_cmdline(rng, small=True):
         wt = rng.choice(wire_tags)
         n = [o[2] for o in final if o[1] == wt][0]
         if n >= 4:
-            argv.append('--taper-wire=%d,%d' % (wt, rng.choice([1, 2, 3])))
+            tw = '--taper-wire=%d,%d' % (wt, rng.choice([1, 2, 3]))
+            u = rng.random()
+            if u < 0.3:
+                tw += ',%s' % g(seg * rng.choice([0.1, 0.3]))                       # minimum segment length
+            elif u < 0.6:
+                tw += ',%s,%s' % (g(seg * rng.choice([0, 0.1, 0.3])), g(seg * rng.choice([1.3, 2.0])))    # minimum and maximum
+            argv.append(tw)
             meta['taper'] = True
     if ground:
         med = rng.choice(['ideal', 'one', 'two', 'two-circ', 'radials'])
